@@ -41,11 +41,14 @@ var outcomes = []string{
 // A Round scripts one dial attempt (and the task that follows a successful one).
 type Round struct {
 	Out     string `json:"out"`
-	Dur     int64  `json:"dur,omitempty"` // fake ns the task runs
+	Dur     int64  `json:"dur,omitempty"`      // fake ns the task runs
 	DialDur int64  `json:"dial_dur,omitempty"` // fake ns the dial attempt itself takes (it cannot be interrupted)
-	Get     string `json:"get,omitempty"` // sysctl faults of this generation (Advertise mode): permission notexist other
+	Get     string `json:"get,omitempty"`      // sysctl faults of this generation (Advertise mode): permission notexist other
 	Set     string `json:"set,omitempty"`
 	Restore string `json:"restore,omitempty"`
+	// Flip: somebody else (the operator, a re-created interface) changes the
+	// sysctl just before this dial attempt.
+	Flip bool `json:"flip,omitempty"`
 }
 
 // An SPlan is one simulated run of Dialer.Dial.
@@ -155,6 +158,7 @@ func execSPlan(t *testing.T, p *SPlan, res *verifsim.Result, after func(ev []ver
 			time.Sleep(time.Duration(p.Offset))
 		}
 		context.VerifCancelSeed = p.Cancel
+		context.VerifSetMapSeed(p.Cancel ^ uint64(p.Offset))
 		lg := verifsim.NewLog(time.Now())
 		st := &simState{lg: lg, auto: p.Auto}
 		mode := Advertise
@@ -188,7 +192,14 @@ func execSPlan(t *testing.T, p *SPlan, res *verifsim.Result, after func(ev []ver
 			gen++
 			g := gen
 			cur = r
-			lg.Add(verifsim.Event{K: "open", Gen: g})
+			if r.Flip {
+				st.auto = !st.auto
+			}
+			oe := verifsim.Event{K: "open", Gen: g}
+			if st.auto {
+				oe.V = 1
+			}
+			lg.Add(oe)
 			var restore func() error
 			if mode == Advertise {
 				// The composition inside the real dial() is mirrored here; the
@@ -428,7 +439,7 @@ func c11Enum(tier string) int {
 	if tier == "thorough" {
 		d = 3
 	}
-	return pow(len(outcomes), d) * 2 * 64 * d
+	return pow(len(outcomes), d) * 2 * 64 * d * 2
 }
 
 func c11Gen(rng *verifsim.RNG, idx int, tier string) any {
@@ -448,6 +459,12 @@ func c11Gen(rng *verifsim.RNG, idx int, tier string) any {
 		k /= 64
 		which := k % d
 		p.Rounds[which].Get, p.Rounds[which].Set, p.Rounds[which].Restore = sysctlKinds[f%4], sysctlKinds[(f/4)%4], sysctlKinds[f/16]
+		// every second copy of the corpus has the sysctl changed by somebody
+		// else before the last connection is opened
+		if (k/d)%2 == 1 {
+			p.Rounds[d-1].Flip = true
+			p.Class = "enumerated+flip"
+		}
 		return p
 	}
 	p.Class = "random"
@@ -470,6 +487,7 @@ func c11Gen(rng *verifsim.RNG, idx int, tier string) any {
 		if rng.Bool(0.3) {
 			r.Restore = sysctlKinds[rng.Intn(4)]
 		}
+		r.Flip = i > 0 && rng.Bool(0.2)
 		p.Rounds = append(p.Rounds, r)
 	}
 	if rng.Bool(0.6) {
@@ -690,16 +708,22 @@ func c11Oracle(p *SPlan, ev []verifsim.Event, res *verifsim.Result) {
 	closed := map[int]int{}
 	var ret *verifsim.Event
 	final := p.Auto
-	// per generation: value read by get, set outcome, restore outcome
+	// per generation: the sysctl's value when the connection was opened, the
+	// value read by get, set outcome, restore outcome
 	type gs struct {
+		before   bool
 		got      *bool
 		setErr   string
+		setDone  bool
 		resErr   string
 		restored *bool
 	}
 	gens := map[int]*gs{}
 	curGen := 0
-	lost := false // a tolerated failure lost the original value / a disable was refused
+	// exp is what the sysctl must hold according to the property: whatever
+	// it was when a connection was opened, false while one is held, and the
+	// opening value again after a successful restore.
+	exp := p.Auto
 	var pendingGet *bool
 	for i := range ev {
 		e := &ev[i]
@@ -712,7 +736,11 @@ func c11Oracle(p *SPlan, ev []verifsim.Event, res *verifsim.Result) {
 			}
 			open[e.Gen] = true
 			curGen = e.Gen
-			gens[e.Gen] = &gs{}
+			gens[e.Gen] = &gs{before: e.V == 1}
+			if exp != (e.V == 1) {
+				res.Probe("sysctl_changed_between_connections")
+			}
+			exp = e.V == 1
 			res.Nontrivial = true
 		case "close":
 			closed[e.Gen]++
@@ -734,9 +762,10 @@ func c11Oracle(p *SPlan, ev []verifsim.Event, res *verifsim.Result) {
 			if e.S == "dial" {
 				if g != nil {
 					g.setErr = e.Err
+					g.setDone = e.Err == ""
 				}
-				if e.Err == "permission" {
-					lost = true // disable refused: nothing is forced, nothing to restore
+				if e.Err == "" {
+					exp = false
 				}
 				if e.V != 0 {
 					res.Violate("C11.window", "enable-on-dial", "dialing wrote autoconf=%d", e.V)
@@ -746,12 +775,12 @@ func c11Oracle(p *SPlan, ev []verifsim.Event, res *verifsim.Result) {
 					g.resErr = e.Err
 					v := e.V == 1
 					g.restored = &v
-					if g.got != nil && *g.got != v {
-						res.Violate("C11.wrongvalue", "wrongvalue", "connection %d read autoconf=%t when it was opened but restored %t", curGen, *g.got, v)
+					if g.before != v {
+						res.Violate("C11.wrongvalue", "wrongvalue", "autoconf was %t when connection %d was opened but cleanup wrote %t", g.before, curGen, v)
 					}
-				}
-				if e.Err == "permission" || e.Err == "notexist" {
-					lost = true
+					if e.Err == "" {
+						exp = v
+					}
 				}
 			}
 		case "dial.return":
@@ -782,7 +811,6 @@ func c11Oracle(p *SPlan, ev []verifsim.Event, res *verifsim.Result) {
 			if !strings.Contains(ret.Err, "clean up") && !strings.Contains(ret.Err, "restore") {
 				res.Violate("C11.report", "unreported", "restoring autoconf for connection %d failed with an I/O error but Dial returned %q", g, ret.Err)
 			}
-			lost = true
 			res.Probe("restore_failed_other")
 		case "permission", "notexist":
 			if strings.Contains(ret.Err, "clean up") && !anyOther {
@@ -790,12 +818,12 @@ func c11Oracle(p *SPlan, ev []verifsim.Event, res *verifsim.Result) {
 			}
 			res.Probe("restore_failed_tolerated")
 		}
-		if s.restored == nil && s.got != nil && s.setErr == "" && p.Mode == "advertise" {
+		if s.restored == nil && s.setDone && p.Mode == "advertise" {
 			res.Violate("C11.restored", "no-restore", "connection %d disabled autoconf but never wrote it back", g)
 		}
 	}
-	if !lost && p.Mode == "advertise" && final != p.Auto {
-		res.Violate("C11.restored", "final", "autoconf was %t before the run and is %t after Dial returned", p.Auto, final)
+	if p.Mode == "advertise" && final != exp {
+		res.Violate("C11.restored", "final", "autoconf is %t after Dial returned; the connections' opening values and restore outcomes leave it %t", final, exp)
 	}
 	if p.Mode == "monitor" {
 		for i := range ev {
